@@ -390,7 +390,11 @@ def eager(only=None):
               ("Max(5 m, 3)", lambda: sp.Max(Q(5 * m), 3)), ("Max(5 m, 3*second)", lambda: sp.Max(Q(5 * m), 3 * sec)),
               ("Max(-5 m, 3)", lambda: sp.Max(Q(-5 * m), 3)), ("Min(-5 m, 3)", lambda: sp.Min(Q(-5 * m), 3)), ("Max(3, -5 m)", lambda: sp.Max(3, Q(-5 * m))),
               ("Max(-5 m, 3*second)", lambda: sp.Max(Q(-5 * m), 3 * sec)), ("Min(-5 m, 3*second)", lambda: sp.Min(Q(-5 * m), 3 * sec)),
-              ("Min(5 m, -3)", lambda: sp.Min(Q(5 * m), -3))]
+              ("Min(5 m, -3)", lambda: sp.Min(Q(5 * m), -3)),
+              # non-zero magnitudes outside the double range are not zeros
+              ("Max(1e-400 m, 3 s)", lambda: sp.Max(Q(sp.Rational(1, 10**400) * m), Q(3 * sec))), ("Min(3 s, 1e-400 m)", lambda: sp.Min(Q(3 * sec), Q(sp.Rational(1, 10**400) * m))),
+              ("Max(1e-330 m, 3 s) + 1 s", lambda: sp.Max(Q(sp.Float("1e-330", 30) * m), Q(3 * sec)) + Q(1 * sec)), ("Min(-1e-400 m, -3 s)", lambda: sp.Min(Q(sp.Rational(-1, 10**400) * m), Q(-3 * sec))),
+              ("Max(1e400 m, 3 s)", lambda: sp.Max(Q(sp.Integer(10)**400 * m), Q(3 * sec)))]
     for label, mk in refuse:
         if only is not None and label != only:
             continue
@@ -404,13 +408,18 @@ def eager(only=None):
     valued_ = [("Max(5 m, 2 km)", lambda: sp.Max(Q(5 * m), Q(2 * km)), 2000), ("Min(5 m, 2 km)", lambda: sp.Min(Q(5 * m), Q(2 * km)), 5),
                ("Max(0 m, 3 s)", lambda: sp.Max(Q(0 * m), Q(3 * sec)), 3), ("Max(-5 m, 2 km)", lambda: sp.Max(Q(-5 * m), Q(2 * km)), 2000),
                ("Min(-5 m, 2 km)", lambda: sp.Min(Q(-5 * m), Q(2 * km)), -5), ("Min(0 m, -3 s)", lambda: sp.Min(Q(0 * m), Q(-3 * sec)), -3),
-               ("Max(-5 m, 30 cm)", lambda: sp.Max(Q(-5 * m), 30 * units.centimeter), sp.Rational(3, 10)), ("Min(-5, 3)", lambda: sp.Min(Q(-5), 3), -5)]
+               ("Max(-5 m, 30 cm)", lambda: sp.Max(Q(-5 * m), 30 * units.centimeter), sp.Rational(3, 10)), ("Min(-5, 3)", lambda: sp.Min(Q(-5), 3), -5),
+               # a zero-valued quantity where the value depends on how its SIGN is judged (zero is neither negative nor positive)
+               ("atan2(Quantity(0), Quantity(-2))", lambda: sp.atan2(Q(0), Q(-2)), sp.pi), ("atan2((5 m - 500 cm)/1 m, -2)", lambda: sp.atan2((Q(5 * m) - Q(500 * units.centimeter)) / Q(1 * m), Q(-2)), sp.pi),
+               ("atan2(Quantity(0), Quantity(2))", lambda: sp.atan2(Q(0), Q(2)), 0), ("Abs(Quantity(0 m)) + 3 m", lambda: sp.Abs(Q(0 * m)) + Q(3 * m), 3),
+               ("sqrt(Quantity(0)**2) + 1", lambda: sp.sqrt(Q(0)**2) + 1, 1), ("Max(Quantity(0), -1)", lambda: sp.Max(Q(0), -1), 0), ("Min(Quantity(0), 1)", lambda: sp.Min(Q(0), 1), 0),
+               ("Max(1e-400 m, 2e-400 m)", lambda: sp.Max(Q(sp.Rational(1, 10**400) * m), Q(sp.Rational(2, 10**400) * m)), sp.Rational(2, 10**400))]
     for label, mk, want in valued_:
         if only is not None and label != only:
             continue
         try:
             r = Quantity(mk())
-            if abs(sp.N(r.scale_factor) - want) > 1e-9:
+            if abs(sp.N(r.scale_factor - want, 30)) > sp.Float("1e-9") * max(1, abs(sp.N(want, 30))) if abs(sp.N(want, 30)) > sp.Float("1e-300") else sp.N(r.scale_factor - want, 30) != 0:
                 bad.append((label, f"{label}: scale {r.scale_factor}, expected {want}"))
         except Exception as ex:
             bad.append((label, f"{label}: raised {type(ex).__name__}: {ex}"))
